@@ -493,3 +493,43 @@ def control_passret(repo):
     new = replace_span(src, rets[-1], "return None")
     r2 = Repo(repo.root, overlay={m.rel: new})
     return bool(passret(r2).findings)
+
+
+def synthloc(repo, schema=None, sites=None):
+    """R-SYNTHLOC (C16): the 64-bit gate visits every expression, including the ones synthetics.py builds from
+    user-written quantities (`$size_in_bytes = $max(0, start + size, ...)`).  Whether such an expression overflows is
+    decided by the user's field locations, yet the error is placed at the synthetic expression's own location, which
+    prints as `[compiler bug]`; when it is the only error of the module, the user gets no position at all.  Decided:
+    whether anything reachable from the gate's action looks at `is_synthetic` to choose another location."""
+    from . import traversal as T
+    res = RuleResult("R-SYNTHLOC")
+    schema = schema or Schema(repo)
+    sites = sites if sites is not None else T.collect_sites(repo, schema)
+    gate = [s for s in sites if s.action is not None and s.action.name == "_check_bounds_on_runtime_integer_expressions"]
+    if not gate:
+        raise AnalysisError("constraints: the 64-bit gate traversal was not found")
+    act = gate[0].action
+    refs = repo.refs()
+    seen, work = set(), [act.fq]
+    funcs = {}
+    while work:
+        k = work.pop()
+        if k in seen:
+            continue
+        seen.add(k)
+        for g in refs.get(k, ()):
+            funcs[g.fq] = g
+            work.append(g.fq)
+    funcs[act.fq] = act
+    local = [f for f in funcs.values() if f.file.endswith("constraints.py")]
+    res.instances += 1
+    aware = any("is_synthetic" in repo.mod(f.file).seg(f.node) for f in local)
+    reports = [f for f in local if "error.error(" in repo.mod(f.file).seg(f.node)]
+    if reports and not aware:
+        f = reports[0]
+        res.add(f"compiler/front_end/constraints.py|{act.name}|synthetic-location", f"{act.name} (through {', '.join(sorted(x.name for x in reports))}) "
+                "reports range errors at the expression's own source location without regard to is_synthetic: for a structure whose "
+                "synthesised `$size_in_bytes` overflows 64 bits the only diagnostics are located at `[compiler bug]`",
+                "compiler/front_end/constraints.py", f.line, act.name)
+    res.analysed = ["compiler/front_end/constraints.py", "compiler/front_end/synthetics.py"]
+    return res
